@@ -12,9 +12,11 @@
 //   - per session key (epoch, consumer, chain, session): the proof kept equals the highest cumulative CU among all
 //     proofs that were delivered; a snapshot + restart brings back exactly that; the next claim submits exactly that;
 //   - with a claim running concurrently: every delivered proof is covered by a successful submission or a proof still
-//     held (memory or retry table) with at least its CU (never lost); one claim never carries a proof twice; the
-//     provider does not keep a lower proof for a later claim after a higher one was submitted; after one more claim
-//     the highest CU received has been submitted, as the last word for its session;
+//     held (memory or retry table) with at least its CU (never lost); one claim never carries a proof twice; what the
+//     claim submitted and what is kept afterwards is explained by some arrival order of the deliveries around the
+//     gathering (highest of the earlier ones submitted, highest of the later ones kept — the reading of props/c29:
+//     "highest CU received since the last gathering"); after one more claim the highest CU received has been
+//     submitted and every kept proof was submitted exactly once;
 //   - a delivery is only refused when a proof with at least its CU was received.
 package c29coop
 
@@ -410,8 +412,55 @@ func (y *sys) final() {
 		case anySub[k] && safe < m:
 			y.report("delivered-proof-lost-around-claim", fmt.Sprintf("session %s: cu %d was delivered but the best of {kept, retry table, submitted ok} is %d; %s", k, m, safe, state))
 		}
-		if isHeld && okSub[k] > h {
-			y.report("lower-proof-kept-after-higher-submitted", fmt.Sprintf("session %s: cu %d already submitted, cu %d kept for a later claim; %s", k, okSub[k], h, state))
+		if y.claimsRun == 1 {
+			// the claim gathers at one instant: what it submitted and what is kept afterwards must be explained by SOME
+			// split of the concurrent deliveries into "arrived before the gathering" / "arrived after it" (the claim
+			// submits the highest of the former, the highest of the latter is kept for the next claim)
+			var pre, run []uint64
+			for _, d := range y.deliveries {
+				if d.p.k != k {
+					continue
+				}
+				if d.thread == "S0" {
+					pre = append(pre, d.p.cu)
+				} else {
+					run = append(run, d.p.cu)
+				}
+			}
+			var subs []uint64
+			for _, c := range y.tx.calls {
+				for _, p := range c.ps {
+					if p.k == k {
+						subs = append(subs, p.cu)
+					}
+				}
+			}
+			explained := false
+			for mask := 0; mask < 1<<len(run) && len(subs) <= 1; mask++ {
+				var es, eh uint64
+				for _, c := range pre {
+					if c > es {
+						es = c
+					}
+				}
+				for i, c := range run {
+					if mask&(1<<i) != 0 {
+						if c > es {
+							es = c
+						}
+					} else if c > eh {
+						eh = c
+					}
+				}
+				var s0 uint64
+				if len(subs) == 1 {
+					s0 = subs[0]
+				}
+				explained = explained || (s0 == es && h == eh)
+			}
+			if !explained {
+				y.report("claim-and-kept-proof-match-no-arrival-order", fmt.Sprintf("session %s: claim submitted %v and cu %d is kept: no arrival order of the deliveries around the gathering gives that; %s", k, subs, h, state))
+			}
 		}
 	}
 	for k := range held {
@@ -459,10 +508,8 @@ func (y *sys) final() {
 
 	// one more claim (tx succeeds): the highest CU received must have been submitted, as the last word
 	y.phase = 1
-	failedInRun := y.fail
 	y.fail = false
 	y.claimAlone("later-claim", y.srv, laterEpoch)
-	lastOK := map[pkey]uint64{}
 	maxOK := map[pkey]uint64{}
 	cnt := map[*proofT]int{}
 	for _, c := range y.tx.calls {
@@ -471,7 +518,6 @@ func (y *sys) final() {
 				cnt[p]++
 			}
 			if c.ok {
-				lastOK[p.k] = p.cu
 				if p.cu > maxOK[p.k] {
 					maxOK[p.k] = p.cu
 				}
@@ -481,9 +527,6 @@ func (y *sys) final() {
 	for k, m := range best {
 		if maxOK[k] != m {
 			y.report("highest-proof-never-submitted", fmt.Sprintf("session %s: highest delivered cu %d, highest submitted after a further claim %d; %s; later claim %s", k, m, maxOK[k], state, y.fmtCalls(1)))
-		} else if !failedInRun && lastOK[k] != m {
-			// (with a failed tx the retry and the new proof travel in two concurrent txs: no order to demand)
-			y.report("lower-proof-submitted-as-last-word", fmt.Sprintf("session %s: highest delivered cu %d, last submitted %d; %s; later claim %s", k, m, lastOK[k], state, y.fmtCalls(1)))
 		}
 	}
 	for k, h := range held {
@@ -557,6 +600,12 @@ func init() {
 	})
 	reg("H2c-two-consumers-vs-claim", func(y *sys) { y.send("S0", proof(0, 7, 10)); y.send("S0", proof(1, 8, 10)) }, func(y *sys, s *coop.Sched) {
 		pa, pb := proof(0, 7, 30), proof(1, 8, 20)
+		s.Go("A", func() { y.send("A", pa) })
+		s.Go("B", func() { y.send("B", pb) })
+		s.Go("C", func() { y.claim("C", claimEpoch) })
+	})
+	reg("H2d-same-session-two-deliveries-vs-claim", func(y *sys) { y.send("S0", proof(0, 7, 10)) }, func(y *sys, s *coop.Sched) {
+		pa, pb := proof(0, 7, 20), proof(0, 7, 30)
 		s.Go("A", func() { y.send("A", pa) })
 		s.Go("B", func() { y.send("B", pb) })
 		s.Go("C", func() { y.claim("C", claimEpoch) })
